@@ -139,6 +139,14 @@ func (g *Graph) Canon() error {
 	}
 	g.renumber(on.Mapping(), false)
 
+	// The sort only notices duplicates it happens to compare; the root in
+	// particular is not compared with every node. Scan for the rest.
+	for i := 1; i < len(g.Nodes) && !on.Dupe; i++ {
+		if g.Nodes[i].Compare(g.Nodes[0]) == 0 || (i > 1 && g.Nodes[i].Compare(g.Nodes[i-1]) == 0) {
+			on.Dupe = true
+		}
+	}
+
 	if on.Dupe {
 		// If there were duplicate nodes, the prior sort did not yield a
 		// canonical ordering. Perform a more expensive BFS canonicalisation.
